@@ -150,6 +150,16 @@ def gen_cases(tier, seed):
                 yield make_case("name%d" % i, "name_kind", copy.deepcopy(tree), [], spelling,
                                 {"seed": "11" * 16, "rules": []})
                 i += 1
+    # 2a. hard links: two names of one file are two files of the directory (each is judged by its own name; removing one
+    # name leaves the other name and the content alone), every listing order
+    hl = [[{"name": "a.mmm", "kind": "file", "content": "1"}, {"name": "b.mmm", "kind": "hardlink", "to": "a.mmm"}, {"name": "c.ms", "kind": "file", "content": "2"}],
+          [{"name": "a.mmm", "kind": "file", "content": "1"}, {"name": "keep.ms", "kind": "hardlink", "to": "a.mmm"}, {"name": "z.mmm", "kind": "file", "content": "3"}],
+          [{"name": "x.mmm", "kind": "hardlink", "to": "<target>"}, {"name": "y.mmm", "kind": "file", "content": "4"}, {"name": "x.bak", "kind": "hardlink", "to": "y.mmm"}]]
+    for t, tree in enumerate(hl):
+        perms = list(itertools.permutations(range(len(tree) + 2)))
+        for j, perm in enumerate(perms if not quick else perms[::3]):
+            yield make_case("hl%d-%d" % (t, j), "benign", copy.deepcopy(tree), [], "d",
+                            {"seed": "22" * 16, "rules": [{"id": "perm", "call": "readdir", "pat": "*", "nth": "*", "act": "perm:" + ",".join(map(str, perm))}]})
     # 2b. directories far larger than the property's 8 entries (the statement itself has no size limit)
     for k in range(24 if quick else 240):
         rng = Rng(derive(seed, PROP, "large", k))
@@ -180,6 +190,11 @@ def gen_cases(tier, seed):
             # a name with leading or trailing blanks next to a directory with the trimmed name; paths with `.` and `..`
             # components, two leading `..`, `..` behind a symbolic link to a directory elsewhere
             spelling = srng.choice(["ws_trail", "ws_lead", "ws_tab", "up2", "linkup", "d/../d", "./d/.", "dl/../d", "targets/../d", "targets/tdir/../../d/."])
+        s3 = Rng(derive(seed, PROP, "spell3", k))
+        if s3.chance(1, 15):
+            # a directory whose name begins with a tilde is a directory like any other (the shell expands `~`, the tool must not):
+            # HOME names another directory, which has bytecode files of its own
+            spelling = s3.choice(["tilde", "tilde_name"])
         prng = Rng(derive(seed, PROP, "plan", k))
         plan = gen_plan(prng, batch, len(tree))
         streams = prng.choice(["pipes", "one"])
@@ -213,6 +228,10 @@ def build_tree(root, entries, target_file, target_dir):
             os.symlink(target_dir, p)
         elif k == "dangling":
             os.symlink("/nonexistent/simworld-dangling", p)
+    for e in entries:
+        if e["kind"] == "hardlink":
+            # a second name of a regular file: of a sibling made above, or of the write-protected file outside DIR
+            os.link(target_file if e["to"] == "<target>" else os.path.join(root, e["to"]), os.path.join(root, e["name"]))
 
 
 def snapshot(root):
@@ -317,7 +336,7 @@ def run_case(case):
     tfile = os.path.join(root, "targets", "tfile.mmm")
     tdir = os.path.join(root, "targets", "tdir")
     spelling = case["dir"]
-    dn = {"ws_trail": "d ", "ws_lead": " d", "ws_tab": "d\t"}.get(spelling, "d")
+    dn = {"ws_trail": "d ", "ws_lead": " d", "ws_tab": "d\t", "tilde": "~", "tilde_name": "~d"}.get(spelling, "d")
     ddir = os.path.join(root, dn)
     os.mkdir(ddir)
     build_tree(ddir, case["tree"], tfile, tdir)
@@ -344,6 +363,13 @@ def run_case(case):
         cwd, arg = root, spelling
     os.symlink(dn, os.path.join(root, "dl"))
     xenv = dict(case.get("vars") or {})
+    if spelling in ("tilde", "tilde_name"):
+        for hd in ("home", "homed"):
+            os.makedirs(os.path.join(root, hd))
+            for nm in ("x.mmm", "keep.mmm"):
+                with open(os.path.join(root, hd, nm), "w") as f:
+                    f.write("bytecode in the home directory")
+        xenv["HOME"] = os.path.join(root, "home")
     if case.get("stale_pwd"):
         decoy = os.path.join(root, "elsewhere")
         os.makedirs(os.path.join(decoy, "d"))
